@@ -150,3 +150,88 @@ getitem.concretize = _concretize_getitem
 contig_lengths.concretize = _concretize_lengths
 
 CONTRACTS = [getitem, contig_lengths]
+
+
+# ---------------------------------------------------------------------------------------------
+# create_index: the per-chunk index rows are shifted by the byte sizes of all earlier chunks (2 and 3 chunks)
+from pyvc.pybuiltins import STable
+from pyvc.core import Opaque
+
+
+def _create_index():
+    from bionumpy.io import indexed_fasta
+    return indexed_fasta.create_index
+
+
+def _setup_ci(k):
+    def setup(ctx):
+        from bionumpy.io.multiline_buffer import FastaIdx
+        st = St()
+        st.k = k
+        st.chunks = []
+        for j in range(k):
+            n = z3.Int("n_%d" % j)
+            f = {c: z3.Function("%s_%d" % (c, j), z3.IntSort(), z3.IntSort()) for c in ("length", "start", "cpl", "ll")}
+            bsz = z3.Int("byte_size_%d" % j)
+            t = STable({"chromosome": Opaque("names%d" % j), "length": SArr.fresh(n, lambda i, f=f: f["length"](I(i))),
+                        "start": SArr.fresh(n, lambda i, f=f: f["start"](I(i))), "characters_per_line": SArr.fresh(n, lambda i, f=f: f["cpl"](I(i))),
+                        "line_length": SArr.fresh(n, lambda i, f=f: f["ll"](I(i))), "byte_size": SArr.fresh(n, lambda i, bsz=bsz: bsz)}, n)
+            st.chunks.append((n, f, bsz, t))
+            ctx.assume(n >= 1, bsz >= 0)
+        ctx.ip.class_models[FastaIdx] = lambda ip, args, kwargs, lineno: STable(
+            {"chromosome": args[0], "length": args[1], "start": args[2], "characters_per_line": args[3], "line_length": args[4]}, args[1].length)
+        st.args = [Opaque("filename")]
+        return st
+    return setup
+
+
+def _bnp_open(holder):
+    class Reader:
+        def getattr(self, ip, name, lineno):
+            if name == "read_chunks":
+                return self
+
+        def sym_call(self, ip, args, kwargs, lineno):
+            return [c[3] for c in holder["st"].chunks]
+    return lambda ip, args, kwargs, lineno: Reader()
+
+
+_hci = {}
+
+
+def _setup_ci2(k):
+    inner = _setup_ci(k)
+
+    def setup(ctx):
+        st = inner(ctx)
+        _hci["st"] = st
+        return st
+    return setup
+
+
+def _ens_ci(ctx, st, ret):
+    goals = []
+    row0, off = 0, 0
+    for j, (n, f, bsz, t) in enumerate(st.chunks):
+        r0, o0 = row0, off
+        goals.append(("chunk%d.offsets.shifted.by.bytes.of.earlier.chunks" % j,
+                      Forall(lambda i, n=n, f=f, r0=r0, o0=o0: Implies(in_range(i, n), ret.cols["start"].at(r0 + I(i)) == f["start"](i) + o0))))
+        goals.append(("chunk%d.other.columns.kept" % j,
+                      Forall(lambda i, n=n, f=f, r0=r0: Implies(in_range(i, n), And(ret.cols["length"].at(r0 + I(i)) == f["length"](i),
+                                                                                ret.cols["characters_per_line"].at(r0 + I(i)) == f["cpl"](i),
+                                                                                ret.cols["line_length"].at(r0 + I(i)) == f["ll"](i))))))
+        row0, off = row0 + n, off + bsz
+    goals.append(("n.rows", I(ret.n) == row0))
+    return goals
+
+
+def _mk_ci(k):
+    return Contract("C17.create_index[%d chunks]" % k, target=_create_index, setup=_setup_ci2(k), ensures=_ens_ci,
+                    callees={"bionumpy.io.files.bnp_open": _bnp_open(_hci)},
+                    canaries=[("offset of the chunk itself added", "offsets = np.cumsum([0]+[idx.byte_size[0] for idx in indice_builders])",
+                               "offsets = np.cumsum([idx.byte_size[0] for idx in indice_builders])"),
+                              ("line length used as byte size", "idx.byte_size[0] for idx in indice_builders", "idx.line_length[0] for idx in indice_builders")])
+
+
+create_index2, create_index3 = _mk_ci(2), _mk_ci(3)
+CONTRACTS += [create_index2, create_index3]
